@@ -297,6 +297,53 @@ PROPS["C19"] = dict(
                "grammar equivalence is being proved separately (C01/C02 branches).",
 )
 
+PROPS["C01"] = dict(
+    lean_targets=["SJ.Props.C01", "SJ.Audit.C01"],
+    configs=dict(quick=["d", "ap"], thorough=["d", "ap", "fr", "po", "ud"]),
+    gen_keys=["error.", "de."],
+    rule=PARSE_RULE + " Accept/reject of the crate is compared with the model and with the independent recursive-descent "
+         "recogniser + side conditions (Spec.Rec, Spec.Canon.sideConditions).",
+    trusted_base=MACHINE_TB,
+    assumptions=["under arbitrary_precision / raw_value the Value visitor special-cases objects whose first key is the private "
+                 "Number/RawValue token; such inputs are outside the generators"],
+    partial=["soundness (accepted => JsonText + side conditions) = c02_denotes is being proved on a separate branch; until merged "
+             "that direction is carried by the exhaustive-token correspondence against the independent recogniser"],
+    technique="Lean 4 theorem: completeness of the byte-step machine w.r.t. an inductive RFC 8259 grammar (induction on derivations, "
+              "all configurations/sources) + exhaustive-token differential run against the crate and an independent recogniser",
+    level_text="Machine-checked: c01_complete_value — every byte string that is one RFC 8259 JSON text (inductive byte-level grammar) "
+               "nested at most 127 deep (or limit off), with paired surrogates, UTF-8 strings (byte sources) and numbers in range "
+               "(not needed under arbitrary_precision: c01_complete_value_ap) is accepted by the parser model and yields the value "
+               "it denotes; c01_complete_ignored (skipped content accepts every JSON text without side conditions); "
+               "c01_empty_rejected, c01_leading_ws / c01_trailing_ws. The converse is c02_denotes (separate branch). The crate's "
+               "accept/reject on every token sequence up to length 3-4, depth profiles 126-130, documents and mutations is compared "
+               "with the model and with an independent recogniser.",
+    level_note="Trusted: Lean kernel + 3 standard axioms; extract.py (depth 128, whitespace set, literals regenerated); harness/driver; "
+               "the hand-written machine model validated by correspondence (0 disagreements over all sources/configs).",
+)
+
+PROPS["C02"] = dict(
+    lean_targets=["SJ.Props.C02Map", "SJ.Props.C06Int", "SJ.Audit.C02"],
+    configs=dict(quick=["d", "po", "ap"], thorough=["d", "po", "fr", "ap"]),
+    gen_keys=["error.", "de."],
+    rule=PARSE_RULE + " The returned Value (tagged tree: integers exact, floats as bit patterns, object keys in iteration order) "
+         "is compared with the model and with the independent denotation Spec.Canon.canon of the recognised syntax tree.",
+    trusted_base=MACHINE_TB,
+    assumptions=["float values are whatever the configured conversion returns: their accuracy is C07/C08, not C02"],
+    partial=["c02_denotes (every accepted text yields canon of a syntax tree of that text) is being proved on the soundness branch; "
+             "the converse direction (completeness, with the value) is c01_complete_value"],
+    technique="Lean 4 theorems: objects built by sequential insertion = one entry per distinct key with the last value, sorted / "
+              "first-occurrence order (mkObj = objectOf, both builds); the overflow! guard = mathematical comparison and integer "
+              "classification of every digit string; completeness with value (C01) + value-level differential run",
+    level_text="Machine-checked for all member lists and all digit strings: c02_object_keys_distinct, c02_object_last_duplicate_wins, "
+               "c02_object_sorted_default, c02_object_first_occurrence_order, c02_mkObj_eq_objectOf, c02_canonM_eq_canon; "
+               "c06_overflow_guard_spec, c06_parse_integer (u64 iff in [0,2^64), i64 iff in [-2^63,0), otherwise float), c06_minus_zero "
+               "(-0 is the float 0x8000000000000000), c06_out_of_integer_range. Together with c01_complete_value (the accepted value "
+               "is canon of the text's tree). Every Value the crate returns on generated/exhaustive inputs is compared with the model "
+               "and an independent denotation.",
+    level_note="Trusted: Lean kernel + 3 standard axioms; extract.py; harness/driver; machine model. BTreeMap/IndexMap insertion "
+               "modelled by documented semantics (btInsert/ixInsert).",
+)
+
 # properties not claimed yet (kept current as checks are added)
 NOT_APPLICABLE = [
     dict(property_id=f"C{i:02d}", reason="check under construction in this build phase; not yet claimed (see DESIGN.md §11 build order)")
